@@ -2,6 +2,8 @@ package harness
 
 import (
 	"fmt"
+	"os"
+	"sort"
 	"strings"
 
 	"verif/sim/simos"
@@ -50,7 +52,11 @@ func genC03(seed uint64, tier string) *Plan {
 		}
 	}
 	p.Ops = out
-	if r.Chance(0.25) && p.Cfg.Primary == "multihash" {
+	forceBG := os.Getenv("VERIF_C03_BG") == "1" // experiments only; not set by any registered command
+	if forceBG {
+		p.Cfg.Primary = "multihash"
+	}
+	if (r.Chance(0.3) || forceBG) && p.Cfg.Primary == "multihash" {
 		// background variant: the store's own flusher and collectors run on short
 		// simulated intervals during the forward run, so crash points land in the
 		// middle of background flushes and GC cycles (explicit GC ops are dropped:
@@ -60,18 +66,59 @@ func genC03(seed uint64, tier string) *Plan {
 		p.Cfg.SyncMs = 1 + r.Intn(20)
 		p.Cfg.GCMs = int64(3 + r.Intn(40))
 		p.Cfg.GCLimitMs = int64([]int{0, 1, 5}[r.Intn(3)])
+		if r.Chance(0.4) {
+			// dense collectors: a cycle every 1-4 ms, so that most commits overlap
+			// with a GC cycle
+			p.Cfg.GCMs = int64(1 + r.Intn(4))
+			p.X["dense"] = 1
+		}
+		if r.Chance(0.5) {
+			// collectors only have work when files roll over
+			p.Cfg.IndexFile = fileSizes[r.Intn(3)]
+		}
+		busy := r.Chance(0.4)
+		if busy {
+			// busy writer: a long run of overwrites and removals of a few keys
+			// with short pauses, small index and primary files, dense collectors:
+			// nearly every periodic flush has work and overlaps a GC cycle that
+			// has older files to reap
+			p.X["busy"] = 1
+			p.X["dense"] = 1
+			p.Cfg.GCMs = int64(1 + r.Intn(4))
+			p.Cfg.SyncMs = 1 + r.Intn(4)
+			p.Cfg.IndexFile = fileSizes[r.Intn(5)]
+			p.Cfg.PrimaryFile = fileSizes[r.Intn(6)]
+			if len(p.Keys) > 3 {
+				p.Keys = p.Keys[:1+r.Intn(3)]
+			}
+			vs := 1000
+			p.Ops = genSeqOps(r, 25+r.Intn(40), len(p.Keys), opMix{put: 60, get: 3, remove: 15, flush: 4, reput: 2}, false, &vs)
+		}
 		var keep []Op
 		for _, o := range dropGCOps(p.Ops) {
 			keep = append(keep, o)
-			if r.Chance(0.5) {
+			switch {
+			case busy && r.Chance(0.7):
+				keep = append(keep, Op{K: "sleep", A: 1 + r.Intn(3000)})
+			case !busy && r.Chance(0.5):
 				keep = append(keep, Op{K: "sleep", A: 1 + r.Intn(30000)})
 			}
 		}
 		p.Ops = keep
-		p.Sim.Latency = LatencyCfg{Kind: "const", Base: int64(1000 * (1 + r.Intn(300)))}
+		if r.Chance(0.55) {
+			p.Sim.Latency = LatencyCfg{Kind: "const", Base: int64(1000 * (1 + r.Intn(300)))}
+		} else {
+			// no latency model: file operations take no simulated time, so the
+			// flusher and the collectors woken during one sleep of the writer
+			// interleave step by step under the random strategy
+			p.X["nolat"] = 1
+		}
 	}
 	p.X["followup"] = 6 + r.Intn(14)
 	p.X["sample"] = 24
+	if forceBG && os.Getenv("VERIF_C03_ALL") == "1" {
+		p.X["sample"] = 0
+	}
 	if tier == "thorough" {
 		p.X["sample"] = 0 // all crash points
 	}
@@ -81,6 +128,37 @@ func genC03(seed uint64, tier string) *Plan {
 	if p.X["bg"] == 1 {
 		p.Sim.Strategy = simrt.Strategy{Kind: "random"}
 		p.Sim.MaxSteps = 80000
+		if r.Chance(0.75) {
+			// descheduled goroutines: with a latency model file operations take
+			// simulated time but lock operations do not, so without preemption a
+			// collector could never complete a read-check-mark sequence inside a
+			// commit's lock-only window
+			p.Sim.PreemptEvery = 8 + r.Intn(80)
+			p.Sim.PreemptNs = int64(200+r.Intn(5000)) * 1000
+		}
+		if r.Chance(0.4) {
+			// all tasks advance at comparable, varying speeds on the simulated
+			// clock; replaces the other two perturbations
+			p.Sim.PreemptEvery, p.Sim.PreemptNs = 0, 0
+			p.Sim.JitterNs = int64(20+r.Intn(400)) * 1000
+			p.X["jitter"] = 1
+		} else if r.Chance(0.6) {
+			// a few program points at which every task passing by may be held up
+			// for milliseconds: opens two-statement windows (between a commit's
+			// cut and its write, between a collector's check and its mark) wide
+			// enough for whole flushes and GC cycles of the other tasks: a stall
+			// lasts one to two periods of the slower background activity
+			p.Sim.SlowMod = 4 + r.Intn(10)
+			p.Sim.SlowCoin = []int{2, 3, 4, 8}[r.Intn(4)]
+			period := p.Cfg.GCMs
+			if int64(p.Cfg.SyncMs) > period {
+				period = int64(p.Cfg.SyncMs)
+			}
+			if period > 10 {
+				period = 10
+			}
+			p.Sim.SlowNs = period * int64(1000+r.Intn(1000)) * 1000
+		}
 	}
 	return p
 }
@@ -93,6 +171,11 @@ type crashCand struct {
 	img   *simos.Image
 	adm   *Adm
 	opIdx int
+	// inter: the previous mutating op was issued by another task, i.e. this
+	// crash point lies inside a window in which two activities (writer, flusher,
+	// collectors) have interleaved their file mutations
+	inter      bool
+	afterDestr bool
 }
 
 // tornLengths returns the torn-write lengths to try for an n-byte write.
@@ -185,6 +268,16 @@ func runCrash(p *Plan, tape *simrt.Tape, opt RunOpt) *RunOut {
 			return simos.Action{}
 		}
 		c := &crashCand{mut: rec.Mut, rec: *rec, img: f.Snapshot(), adm: d.Adm.clone(), opIdx: d.OpIdx}
+		if n := len(cands); n > 0 {
+			prev := cands[n-1]
+			if prev.rec.Task != rec.Task {
+				c.inter = true
+			}
+			// the image of this crash point ends with an in-place mutation
+			// (deleted mark, truncation, unlink, rename: what collectors and
+			// commits do) rather than an append
+			c.afterDestr = prev.rec.Kind != simos.OpWrite || prev.data == nil
+		}
 		// torn variants apply to appended regions (the property's quantifier):
 		// Write calls that extend the file, not in-place 4-byte WriteAt marks
 		if rec.Kind == simos.OpWrite {
@@ -216,6 +309,20 @@ func runCrash(p *Plan, tape *simrt.Tape, opt RunOpt) *RunOut {
 	out.SimTime += res.SimTime
 	out.SchedHash = res.SchedHash
 	out.Outcome = res.Outcome.String()
+	if w.Preemptions > 0 {
+		out.Faults["preempt"] += w.Preemptions
+	}
+	if w.SiteStalls > 0 {
+		out.Faults["site-stall"] += w.SiteStalls
+	}
+	if w.Jitters > 0 {
+		out.Faults["jitter"] += w.Jitters
+	}
+	if dbg := os.Getenv("VERIF_DEBUG_SITES"); dbg != "" {
+		f, _ := os.OpenFile(dbg, os.O_APPEND|os.O_CREATE|os.O_WRONLY, 0o644)
+		defer f.Close()
+		fmt.Fprintf(f, "SITES seed=%d busy=%d nolat=%d mod=%d coin=%d ns=%d stalls=%d steps=%d outcome=%s %v\n", p.Seed, p.x("busy", 0), p.x("nolat", 0), p.Sim.SlowMod, p.Sim.SlowCoin, p.Sim.SlowNs, w.SiteStalls, res.Steps, res.Outcome, w.SiteStallCounts())
+	}
 	if opt.Trace {
 		out.Trace = append(out.Trace, "--- forward run ---")
 		out.Trace = append(out.Trace, w.FormatTrace(150)...)
@@ -233,7 +340,7 @@ func runCrash(p *Plan, tape *simrt.Tape, opt RunOpt) *RunOut {
 			out.Faults["torn"]++
 		}
 		img := fs.Snapshot()
-		rc := &recoverer{p: p, out: out, opt: opt}
+		rc := &recoverer{p: p, out: out, opt: opt, light: p.x("light", 0) == 1}
 		v := rc.recover(img, hit.adm, p.x("nested_at", -1), fmt.Sprintf("crash before %s %s (mutating op %d, during plan op %d, torn=%d)", hit.rec.Kind, hit.rec.Path, hit.mut, hit.opIdx, p.x("torn", 0)))
 		if v != nil && p.Prop == "C07" && !strings.Contains(v.Class, "fsck") {
 			v = nil
@@ -261,6 +368,7 @@ func runCrash(p *Plan, tape *simrt.Tape, opt RunOpt) *RunOut {
 		c      *crashCand
 		torn   int
 		nested bool
+		light  bool
 	}
 	var jobs []job
 	sample := p.x("sample", 24)
@@ -280,11 +388,63 @@ func runCrash(p *Plan, tape *simrt.Tape, opt RunOpt) *RunOut {
 			j := r.Intn(i + 1)
 			jobs[i], jobs[j] = jobs[j], jobs[i]
 		}
+		if p.x("bg", 0) == 1 {
+			// background variant: two thirds of the sample goes to crash points
+			// that a sequential history cannot produce: first those whose image
+			// ends with an in-place mutation (a collector's mark, truncation or
+			// unlink, a header rename) while another task is in the middle of its
+			// own file mutations, then other points at which the mutations of
+			// different tasks interleave
+			rank := func(j job) int {
+				switch {
+				case j.torn > 0:
+					return 0
+				case j.c.afterDestr && j.c.inter:
+					return 3
+				case j.c.afterDestr:
+					return 2
+				case j.c.inter:
+					return 1
+				}
+				return 0
+			}
+			sort.SliceStable(jobs, func(a, b int) bool { return rank(jobs[a]) > rank(jobs[b]) })
+			ni := 0
+			for _, j := range jobs {
+				if rank(j) > 0 {
+					ni++
+				}
+			}
+			if lim := sample * 2 / 3; ni > lim {
+				// keep lim ranked ones in front, fill the rest from a shuffle of the remainder
+				rest := jobs[lim:]
+				for i := len(rest) - 1; i > 0; i-- {
+					j := r.Intn(i + 1)
+					rest[i], rest[j] = rest[j], rest[i]
+				}
+			}
+			out.Probes["interleaved-crash-points"] += ni
+		}
+		rest := jobs[sample:]
 		jobs = jobs[:sample]
+		if p.x("bg", 0) == 1 {
+			// background variant: the forward schedule is the scarce resource, so
+			// every other crash point of it is booted too, with the light form of
+			// the recovery check
+			nl := 0
+			for _, j := range rest {
+				if j.torn == 0 && nl < 600 {
+					j.light = true
+					jobs = append(jobs, j)
+					nl++
+				}
+			}
+		}
 	}
 	seenImg := map[uint64]bool{}
 	rc := &recoverer{p: p, out: out, opt: opt}
 	for _, j := range jobs {
+		rc.light = j.light
 		img := j.c.img
 		if j.torn > 0 {
 			img = tornImage(j.c, j.torn)
@@ -301,8 +461,11 @@ func runCrash(p *Plan, tape *simrt.Tape, opt RunOpt) *RunOut {
 			out.Faults["torn"]++
 		}
 		nested := -1
-		if r.Chance(0.1) {
+		if !j.light && r.Chance(0.1) {
 			nested = -2 // choose after measuring the recovery's mutating ops
+		}
+		if j.light {
+			out.Probes["light-recoveries"]++
 		}
 		where := fmt.Sprintf("crash before %s %s (mutating op %d, during plan op %d, torn=%d)", j.c.rec.Kind, j.c.rec.Path, j.c.mut, j.c.opIdx, j.torn)
 		v := rc.recoverSearch(img, j.c.adm, nested, r, where)
@@ -316,6 +479,9 @@ func runCrash(p *Plan, tape *simrt.Tape, opt RunOpt) *RunOut {
 			pp.X["crash_at"] = j.c.mut
 			pp.X["torn"] = j.torn
 			pp.X["nested_at"] = rc.nestedUsed
+			if j.light {
+				pp.X["light"] = 1
+			}
 			out.Pinned = pp
 			return out
 		}
@@ -329,6 +495,9 @@ type recoverer struct {
 	out        *RunOut
 	opt        RunOpt
 	nestedUsed int
+	// light: recovery is judged on the reads after Open, one Flush and the fsck
+	// after it, without the continued workload, GC cycles and reopen
+	light bool
 }
 
 // recoverSearch runs recovery; nested == -2 asks for a second crash at a random
@@ -489,6 +658,13 @@ func (d *Driver) recoveredKeyFix() {
 // cycles of each kind, read-back, reopen, read-back.
 func (rc *recoverer) followUp(d *Driver, where string) {
 	p := rc.p
+	if rc.light {
+		d.Exec(&Op{K: "flush"})
+		if d.Viol == nil {
+			d.CloseStore("final")
+		}
+		return
+	}
 	n := p.x("followup", 10)
 	r := simrt.NewRand(p.Seed ^ 0xf0110)
 	vseq := 100000
